@@ -499,21 +499,24 @@ func runNLSegment(col *trace.Collector, rng *rand.Rand, steps int, idx int) *nlS
 
 // nlBarrier sends the marker on p's session and waits until the node has taken it from the session's
 // read channel or the session has ended; returns "" on success.
+// The end-of-session event may already be in the past (the node emits it just before it closes the link, so
+// a marker can still be pushed successfully into a session that will never read it): every sess_end of this
+// session since its own sess_start counts, while only a marker received after this call counts.
 func nlBarrier(col *trace.Collector, vn string, p *peer.Peer, timeout time.Duration) string {
-	from := col.Len()
 	label := fmt.Sprintf("%p", p.Pipe.A)
-	if err := p.SendRaw(peer.Marker); err != nil {
-		// the link is already cut: wait for the node's own end-of-session event (it may already be there)
-		from = 0
-	}
-	_, ok := col.WaitFor(from, timeout, func(r verifhook.Record) bool {
+	markerFrom := col.Len()
+	start := col.SessStart(vn, label)
+	_ = p.SendRaw(peer.Marker)
+	idx := start - 1
+	_, ok := col.WaitFor(start, timeout, func(r verifhook.Record) bool {
+		idx++
 		if r["n"] != vn || r["sess"] != label {
 			return false
 		}
 		if r["ev"] == "sess_end" {
 			return true
 		}
-		if r["ev"] != "recv" {
+		if r["ev"] != "recv" || idx < markerFrom {
 			return false
 		}
 		m, _ := r["msg"].(map[string]any)
